@@ -21,6 +21,8 @@ type ChildTpl struct {
 	// EchoAnnotations: when the child is observed, the hook copies the observed
 	// metadata.annotations into its desired child (a common "start from what I was sent" hook style).
 	EchoAnnotations bool `json:"echoAnnotations,omitempty"`
+	// Annotations the hook itself puts on the desired child.
+	Annotations map[string]string `json:"annotations,omitempty"`
 	// OwnerRefs: owner references the hook itself puts on the desired child.
 	OwnerRefs []map[string]any `json:"ownerRefs,omitempty"`
 }
@@ -168,6 +170,13 @@ func (p *HookProgram) DesiredAll(sim *vs.Server, parent map[string]any) []map[st
 					}
 					meta["labels"] = l
 				}
+				if len(tpl.Annotations) > 0 {
+					a := map[string]any{}
+					for k, v := range tpl.Annotations {
+						a[k] = v
+					}
+					meta["annotations"] = a
+				}
 				if len(tpl.OwnerRefs) > 0 {
 					refs := make([]any, 0, len(tpl.OwnerRefs))
 					for _, r := range tpl.OwnerRefs {
@@ -261,7 +270,16 @@ func (p *HookProgram) eval(sim *vs.Server, parent, observed map[string]any, fina
 			if o, ok := observedLookup(sim, observed, pns, cm); ok {
 				if ann, ok := getPath(o, "metadata.annotations"); ok {
 					cc := vs.CopyMap(cm)
-					cc["metadata"].(map[string]any)["annotations"] = vs.DeepCopyAny(ann)
+					merged, _ := vs.DeepCopyAny(ann).(map[string]any)
+					if merged == nil {
+						merged = map[string]any{}
+					}
+					if own, ok := cc["metadata"].(map[string]any)["annotations"].(map[string]any); ok {
+						for k, v := range own {
+							merged[k] = v
+						}
+					}
+					cc["metadata"].(map[string]any)["annotations"] = merged
 					desired[i] = cc
 				}
 			}
